@@ -40,15 +40,27 @@ def run(ctx):
     need(len(gl) == 1, "grouping loop over the payload list not found")
     pv = unparse(gl[0].stmt.target)
     body = cf.reach([gl[0].id], avoid=[t for t, lab in cf.succ[gl[0].id] if lab == ("iter", False)])
-    apps = [cf.nodes[i] for i in body if any(call_name(c) == "append" and isinstance(c.func.value, ast.Subscript) for c in cf.nodes[i].calls())]
+    def _grouping(c):
+        # M[K].append(p)  (M a defaultdict of lists)  or  M.setdefault(K, []).append(p): (map expr, key expr)
+        if call_name(c) != "append":
+            return None
+        rv_ = c.func.value
+        if isinstance(rv_, ast.Subscript):
+            return rv_.value, rv_.slice
+        if isinstance(rv_, ast.Call) and call_name(rv_) == "setdefault" and len(rv_.args) == 2 and isinstance(rv_.args[1], ast.List) and not rv_.args[1].elts:
+            return rv_.func.value, rv_.args[0]
+        return None
+    apps = [cf.nodes[i] for i in body if any(_grouping(c) is not None for c in cf.nodes[i].calls())]
     need(len(apps) == 1, "grouping append not found once")
-    ac = [c for c in apps[0].calls() if call_name(c) == "append"][0]
-    key_e = ac.func.value.slice
+    ac = [c for c in apps[0].calls() if _grouping(c) is not None][0]
+    gmap_e, key_e = _grouping(ac)
     by_id = isinstance(key_e, ast.Attribute) and key_e.attr == "node_id"
     keyv = unparse(key_e.value) if by_id else unparse(key_e)
-    gmap = unparse(ac.func.value.value)
-    lookups = [cf.nodes[i] for i in body if isinstance(cf.nodes[i].stmt, ast.Assign) and unparse(cf.nodes[i].stmt.targets[0]) == keyv]
-    ok = norm(ac.args[0]) == pv and len(lookups) == 2
+    gmap = unparse(gmap_e)
+    # where the broker entry used as the key comes from: the lookups, through copies (`target = leader`)
+    og_k = value_origins(cf, apps[0].id, ast.Name(id=keyv, ctx=ast.Load()), params=sba.params) or []
+    lookups = [cf.nodes[dn_] for dn_, e_ in og_k if dn_ in body]
+    ok = norm(ac.args[0]) == pv and len(lookups) == 2 and len(og_k) == 2
     for n in lookups:
         calls = [c for c in n.calls() if call_name(c) in ("_get_leader_for_partition", "_get_coordinator_for_group")]
         if len(calls) != 1:
@@ -64,7 +76,18 @@ def run(ctx):
     r.check(by_id, "%s#grouped-by-node-id" % sba.qname, "payloads are grouped under `%s`, not under the broker's node id" % norm(key_e), where(sba, ac),
             "the lookup for a later payload reloads the metadata and learns a new address for a broker an earlier payload already "
             "resolved: the same node appears under two keys and gets two requests")
-    r.check(("%s is None" % keyv, False) in facts[apps[0].id], "%s#no-leader-raises" % sba.qname,
+    def _not_none_at_key():
+        if ("%s is None" % keyv, False) in facts[apps[0].id]:
+            return True
+        # the key variable is a copy made in each arm after that arm's own None test
+        ds_ = reaching_defs(cf, apps[0].id, keyv)
+        okn = bool(ds_)
+        for d_ in ds_:
+            st_ = cf.nodes[d_].stmt
+            v_ = st_.value if isinstance(st_, ast.Assign) else None
+            okn = okn and isinstance(v_, ast.Name) and ("%s is None" % v_.id, False) in facts[d_]
+        return okn
+    r.check(_not_none_at_key(), "%s#no-leader-raises" % sba.qname,
             "a payload without a leader/coordinator is grouped instead of raising", where(sba, ac), "request sent to broker None / KeyError later")
     sends = [n for n in cf.nodes if any(call_name(c) == "_make_request_to_broker" for c in n.calls())]
     need(len(sends) == 1, "send site not found once")
@@ -122,10 +145,10 @@ def run(ctx):
             "that same request (parallel lists appended in lock-step, or one list of pairs)", where(sba, sends[0].stmt),
             "a failed request is blamed on another request's payloads")
     okz = ok
-    ka = [cf.nodes[i] for i in body if any(call_name(c) == "append" and not isinstance(c.func.value, ast.Subscript) for c in cf.nodes[i].calls())]
+    ka = [cf.nodes[i] for i in body if any(call_name(c) == "append" and _grouping(c) is None for c in cf.nodes[i].calls())]
     okk = len(ka) == 1 and (any(s == ka[0].id and lab is None for s, lab in cf.succ[apps[0].id]) or any(
         s == apps[0].id and lab is None for s, lab in cf.succ[ka[0].id]))
-    kc = [c for c in ka[0].calls() if call_name(c) == "append"][0] if ka else None
+    kc = [c for c in ka[0].calls() if call_name(c) == "append" and _grouping(c) is None][0] if ka else None
     okk = okk and norm(kc.args[0]) == "(%s.topic, %s.partition)" % (pv, pv)
     r.check(okz and okk, "%s#results-zip-and-keys" % sba.qname, "results are not matched with payload lists positionally, or the key "
             "list is not appended once per payload", where(sba, sba.node), "responses attributed to the wrong payloads / wrong order")
